@@ -198,8 +198,8 @@ def chains_ok(schedule, chunk, hist, store_ks, upfront) -> bool:
         got = [c.v for c in r.get_samples()[f"p_k{kid}"].cells]
         if got != cells:
             return False
-        ps = r.get_posterior_samples()
         if post:
+            ps = r.get_posterior_samples()
             if [c.v for c in ps[f"p_k{kid}"].cells] != post:
                 return False
     # every stored value is the state after ALL kernels of that iteration ran: the shared key was written last by the last kernel
@@ -273,6 +273,45 @@ def check_keys(d1: int, th1: int, d2: int, th2: int, d3: int, th3: int, chunk: i
     pre: 1 <= d1 <= 3 and 1 <= d2 <= 3 and 1 <= d3 <= 4
     pre: 1 <= th1 <= d1 and 1 <= th2 <= d2 and 1 <= th3 <= d3
     pre: 1 <= chunk <= 3 and d1 % chunk == 0 and d2 % chunk == 0 and d3 % chunk == 0
+    post: _ == True
+    """
+    schedule = _schedule(d1, th1, d2, th2, d3, th3)
+    if any(ty == 4 and d % th != 0 for ty, d, th in schedule):
+        return True
+    return keys_ok(schedule, chunk, list(NH), STORE, UPFRONT)
+
+
+def check_lifecycle_q(d1: int, th1: int, d2: int, th2: int, d3: int, th3: int, chunk: int) -> bool:
+    """
+    pre: 1 <= d1 <= 2 and 1 <= d2 <= 2 and 1 <= d3 <= 3
+    pre: 1 <= th1 <= d1 and 1 <= th2 <= d2 and 1 <= th3 <= d3
+    pre: 1 <= chunk <= 2 and d1 % chunk == 0 and d2 % chunk == 0 and d3 % chunk == 0
+    post: _ == True
+    """
+    schedule = _schedule(d1, th1, d2, th2, d3, th3)
+    if any(ty == 4 and d % th != 0 for ty, d, th in schedule):
+        return True
+    return lifecycle_ok(schedule, chunk, list(NH), STORE, UPFRONT)
+
+
+def check_chains_q(d1: int, th1: int, d2: int, th2: int, d3: int, th3: int, chunk: int) -> bool:
+    """
+    pre: 1 <= d1 <= 2 and 1 <= d2 <= 2 and 1 <= d3 <= 3
+    pre: 1 <= th1 <= d1 and 1 <= th2 <= d2 and 1 <= th3 <= d3
+    pre: 1 <= chunk <= 2 and d1 % chunk == 0 and d2 % chunk == 0 and d3 % chunk == 0
+    post: _ == True
+    """
+    schedule = _schedule(d1, th1, d2, th2, d3, th3)
+    if any(ty == 4 and d % th != 0 for ty, d, th in schedule):
+        return True
+    return chains_ok(schedule, chunk, list(NH), STORE, UPFRONT)
+
+
+def check_keys_q(d1: int, th1: int, d2: int, th2: int, d3: int, th3: int, chunk: int) -> bool:
+    """
+    pre: 1 <= d1 <= 2 and 1 <= d2 <= 2 and 1 <= d3 <= 3
+    pre: 1 <= th1 <= d1 and 1 <= th2 <= d2 and 1 <= th3 <= d3
+    pre: 1 <= chunk <= 2 and d1 % chunk == 0 and d2 % chunk == 0 and d3 % chunk == 0
     post: _ == True
     """
     schedule = _schedule(d1, th1, d2, th2, d3, th3)
